@@ -42,6 +42,7 @@ func (c01) Components() map[string]string {
 // verify: I = [entry 0-3, sig, artifact presented, level, override bits, required meta 0-4, collaborators 0-4, stated content media type 0-2, envelope media type 0 true / 1 other]
 func (c01) Gen(r *rand.Rand, tier string, idx int) *core.Plan {
 	p := &core.Plan{World: map[string]int64{}}
+	p.World["sharedVerifier"] = int64(r.IntN(2))
 	ns := 2 + r.IntN(3)
 	for i := 0; i < ns; i++ {
 		p.Ops = append(p.Ops, core.Op{Kind: "sign", I: []int64{int64(r.IntN(6)), int64(r.IntN(2)), int64(r.IntN(2)), int64(r.IntN(4)), int64(r.IntN(4) / 3)}})
@@ -114,6 +115,8 @@ func (l c01) Exec(env *core.Env) *core.Result {
 	var trace []map[string]any
 	sim.Go("world", func() {
 		ctx := context.Background()
+		var firstVerify *core.Op
+		var sharedVerifier fullVerifier
 		for _, op := range p.Ops {
 			rt.Yield("op")
 			switch op.Kind {
@@ -234,9 +237,19 @@ func (l c01) Exec(env *core.Env) *core.Result {
 				} else {
 					art = 3 + art%3
 				}
-				levelName, override, enf := levelFromKnobs(op.Int(3), op.Int(4))
+				// a share of the runs keeps ONE verifier (level, stores, validator of the first verification) for
+				// every verification of the run: what it accepted or rejected before must not matter
+				kop := op
+				if p.W("sharedVerifier") == 1 {
+					if firstVerify == nil {
+						c := op
+						firstVerify = &c
+					}
+					kop = *firstVerify
+				}
+				levelName, override, enf := levelFromKnobs(kop.Int(3), kop.Int(4))
 				required := c01Required[op.Int(5)%9]
-				collab := op.Int(6)
+				collab := kop.Int(6)
 				store := world.NewScriptedStore()
 				store.Put("ca", "s", signers[0].Root().Cert)
 				val := &world.ScriptedValidator{}
@@ -250,10 +263,19 @@ func (l c01) Exec(env *core.Env) *core.Result {
 				case 4:
 					val.Err = fmt.Errorf("simulated: revocation service down")
 				}
-				v, err := buildVerifier(vcfg{level: levelName, override: override, stores: []string{"ca:s"}, store: store, validator: val})
-				if err != nil {
-					res.Violate("HARNESS/verifier", "", "%v", err)
-					return
+				v := sharedVerifier
+				if v == nil {
+					var err error
+					v, err = buildVerifier(vcfg{level: levelName, override: override, stores: []string{"ca:s"}, store: store, validator: val})
+					if err != nil {
+						res.Violate("HARNESS/verifier", "", "%v", err)
+						return
+					}
+					if p.W("sharedVerifier") == 1 {
+						sharedVerifier = v
+					}
+				} else {
+					res.Probe("verifier_reused_for_another_signature")
 				}
 				mediaType := sg.format
 				if op.Int(8) == 1 {
